@@ -1,5 +1,6 @@
-import TxdbusModel.Proofs.Proto.FdsHandshake
+import TxdbusModel.Proofs.Proto.FdsSender
 import TxdbusModel.Properties.C04
+import TxdbusModel.Gen.FdsRules
 /-!
 # C20 - file descriptors stay attached to the message that carried them
 
@@ -112,6 +113,10 @@ theorem attribution_after_handshake (A : Auth α) (info : Bytes → MsgInfo) (ms
     (hok : ∀ m ∈ ms, Spec.WellFormed m.raw ∧ MsgOK info m)
     (hc : ConsistentAfter (Spec.unlines (hs ++ [last])).length ms (evsA ++ .read (d1 ++ d2) :: evsB)) :
     GoodFrom ms (recvRun A info ⟨s, []⟩ (evsA ++ .read (d1 ++ d2) :: evsB)).2 ∧
+    bytesOf (evsA ++ .read (d1 ++ d2) :: evsB) =
+      Spec.unlines (hs ++ [last]) ++
+        bytesUpTo ms (recvRun A info ⟨s, []⟩ (evsA ++ .read (d1 ++ d2) :: evsB)).2.length ++
+        (recvRun A info ⟨s, []⟩ (evsA ++ .read (d1 ++ d2) :: evsB)).1.st.buffer ∧
     ¬ Spec.hasFrame (recvRun A info ⟨s, []⟩ (evsA ++ .read (d1 ++ d2) :: evsB)).1.st.buffer ∧
     fdsOf (evsA ++ .read (d1 ++ d2) :: evsB) =
       fdsUpTo ms (recvRun A info ⟨s, []⟩ (evsA ++ .read (d1 ++ d2) :: evsB)).2.length ++
@@ -144,11 +149,74 @@ theorem attribution_after_handshake (A : Auth α) (info : Bytes → MsgInfo) (ms
   rw [hsplit, recvRun_append, hq]
   simp only [List.nil_append, hfds1, Nat.sub_zero, List.drop_zero] at hlen hgood inv' ⊢
   rw [hlen]
-  refine ⟨hgood, framed_noFrame _ inv'.hframed, ?_⟩
+  refine ⟨hgood, ?_, framed_noFrame _ inv'.hframed, ?_⟩
+  · have hb := inv'.hbytes
+    rw [bytesOf_append, bytesOf_map_fd] at hb
+    simp only [bytesOf, List.nil_append] at hb
+    rw [bytesOf_append]
+    simp only [bytesOf]
+    have e : bytesOf evsA ++ (d1 ++ d2 ++ bytesOf evsB) = (bytesOf evsA ++ d1) ++ (d2 ++ bytesOf evsB) := by
+      simp [List.append_assoc]
+    rw [e, hH, hb]
+    simp [List.append_assoc]
   have := inv'.hfds
   rw [fdsOf_append, fdsOf_map_fd] at this
   rw [fdsOf_append]
   simpa [fdsOf] using this
+
+/-- **C20.1 + C20.2 composed.**  The messages are what `callRemote` sends for arbitrary bodies
+(`sentMsg raw body`: descriptors = the descriptor arguments in argument order, indices `0..k-1`), their
+bytes `raw` are well-formed for framing (C03) and the parser reads back the header field and the indices
+that were written (C01-C03 round trip - the one link that is an assumption here, see ASSUMPTIONS).  Then
+for every event sequence a stream socket may produce every delivered message carries, in every `h`
+argument, exactly the descriptor passed for that argument: `args = (descriptor arguments).map some`. -/
+theorem attribution_callRemote (A : Auth α) (info : Bytes → MsgInfo) (pairs : List (Bytes × List BV))
+    (evs : List Ev) (s : St α)
+    (hp : ∀ p ∈ pairs, Spec.WellFormed p.1 ∧
+      info p.1 = ⟨(callRemote true p.2).1.header, (callRemote true p.2).1.indices⟩)
+    (hc : Consistent (pairs.map (fun p => sentMsg p.1 p.2)) evs)
+    (hs : s.authenticated = true) (hbuf : s.buffer = []) (hnext : s.nextMsgLen = 0) :
+    (recvRun A info ⟨s, []⟩ evs).2.map (fun d => (d.raw, d.args)) =
+      (pairs.take (recvRun A info ⟨s, []⟩ evs).2.length).map (fun p => (p.1, (fdLeavesL p.2).map some)) := by
+  have hok : ∀ m ∈ pairs.map (fun p => sentMsg p.1 p.2), Spec.WellFormed m.raw ∧ MsgOK info m := by
+    intro m hm
+    obtain ⟨p, hpm, rfl⟩ := List.mem_map.1 hm
+    exact ⟨(hp p hpm).1, msgOK_of_callRemote info p.1 p.2 (hp p hpm).2⟩
+  have hidx : ∀ m ∈ pairs.map (fun p => sentMsg p.1 p.2), m.idx = List.range m.fds.length := by
+    intro m hm
+    obtain ⟨p, _, rfl⟩ := List.mem_map.1 hm
+    simp [sentMsg, callRemote, marshalMsg, marshalBVs_spec, List.range_eq_range']
+  have h := attribution A info _ evs s hok hc hs hbuf hnext
+  rw [goodFrom_args _ _ h.1 hidx, ← List.map_take, List.map_map]
+  apply List.map_congr_left
+  intro p _
+  simp [sentMsg, callRemote, marshalMsg, marshalBVs_spec, Function.comp_def]
+
+/-- The receive order induced by the sender's own transport calls (each `sendFileDescriptor` a
+descriptor arrival, each `write` one read, nothing reordered) is `Consistent`: `sendMessage`'s order
+"descriptors first, then the bytes" is what puts a message's descriptors ahead of its last byte. -/
+theorem sender_calls_consistent (pairs : List (Bytes × List BV)) (hlen : ∀ p ∈ pairs, 16 ≤ p.1.length) :
+    Consistent (pairs.map (fun p => sentMsg p.1 p.2))
+      (pairs.map (fun p => (callRemote true p.2).2.map (toEv p.1))).flatten := by
+  rw [← canonical_eq_transport]
+  apply canonical_consistent
+  intro m hm
+  obtain ⟨p, hpm, rfl⟩ := List.mem_map.1 hm
+  exact hlen p hpm
+
+/-- **Tie to the source.**  The rules of descriptor handling that Proto/Fds.lean mirrors
+(`marshalBV`: index = length before the append; `marshalMsg`: header = length of the list iff non-empty;
+`sendMessage`: one `sendFd` per entry in order, then `write`; `deliver`: index into the whole queue,
+`IndexError` -> none, exactly the declared count removed; `recvEv (.fd n)`: unconditional append;
+`callRemote`: fresh list) hold for the repository under test - regenerated on every run by
+tools/tables/c20_fds.py from the AST (or, for an unknown shape, from the behaviour on crafted inputs) -
+and `_marshal` emits the count under the header code that `message._hcode` names `unix_fds`. -/
+theorem model_rules_match_source :
+    Gen.FdsRules.indexBeforeAppend = true ∧ Gen.FdsRules.resolveByIndex = true ∧
+    Gen.FdsRules.headerCountIsLen = true ∧ Gen.FdsRules.sendEachThenWrite = true ∧
+    Gen.FdsRules.consumeDeclared = true ∧ Gen.FdsRules.queueAlwaysAppends = true ∧
+    Gen.FdsRules.callRemoteFreshList = true ∧
+    Gen.FdsRules.unixFdsHeaderCode = Gen.ProtoConst.unixFdsCode := by decide
 
 /-! ## Boundary of the claim (outside the property: a sender that does not follow `sender_layout`) -/
 
@@ -202,6 +270,29 @@ example : Consistent [⟨tinyMsg16, [5], [0]⟩] [.fd 5, .read tinyMsg16] ∧
       · obtain ⟨t, ht⟩ := hp
         simp at ht
 
+/-- `attribution_after_handshake`: handshake `BEGIN\r\n`, the descriptor arrives before the single read
+that holds the handshake line and the message -/
+example : bytesOf [Ev.fd 5] ++ (beginLine ++ [13, 10]) = Spec.unlines ([] ++ [beginLine]) ∧
+    ConsistentAfter (Spec.unlines ([] ++ [beginLine])).length [⟨tinyMsg16, [5], [0]⟩]
+      ([Ev.fd 5] ++ Ev.read ((beginLine ++ [13, 10]) ++ tinyMsg16) :: []) := by
+  refine ⟨by decide, by decide, by decide, ?_⟩
+  intro p hp k hk hle
+  have hk' : k = 0 ∨ k = 1 := by simp at hk; omega
+  rcases hk' with rfl | rfl
+  · simp [fdsUpTo]
+  · rcases p with _ | ⟨e1, _ | ⟨e2, _ | ⟨e3, p⟩⟩⟩
+    · simp [bytesOf, bytesUpTo, tinyMsg16, Spec.unlines, beginLine] at hle
+    · obtain ⟨t, ht⟩ := hp
+      simp at ht
+      obtain ⟨rfl, _⟩ := ht
+      simp [bytesOf, bytesUpTo, tinyMsg16, Spec.unlines, beginLine] at hle
+    · obtain ⟨t, ht⟩ := hp
+      simp at ht
+      obtain ⟨rfl, rfl, _⟩ := ht
+      simp [fdsOf, fdsUpTo]
+    · obtain ⟨t, ht⟩ := hp
+      simp at ht
+
 example : Spec.WellFormed tinyMsg16 ∧
     MsgOK (fun _ => ⟨some 1, [0]⟩) ⟨tinyMsg16, [5], [0]⟩ := by
   refine ⟨by decide, rfl, Or.inl rfl, ?_⟩
@@ -224,5 +315,11 @@ open Txdbus.Proto in
 #print axioms attribution
 open Txdbus.Proto in
 #print axioms attribution_after_handshake
+open Txdbus.Proto in
+#print axioms attribution_callRemote
+open Txdbus.Proto in
+#print axioms sender_calls_consistent
+open Txdbus.Proto in
+#print axioms model_rules_match_source
 open Txdbus.Proto in
 #print axioms index_beyond_declared_reaches_later_message
